@@ -17,6 +17,7 @@ import Mathlib.Algebra.Ring.Defs
 import Mathlib.Algebra.Field.Defs
 import Mathlib.Algebra.Ring.Invertible
 import Mathlib.LinearAlgebra.Matrix.Adjugate
+import Mathlib.Algebra.Field.Rat
 import GT.Base.DMat
 import GT.Model.Words
 
@@ -170,7 +171,7 @@ def tensorMat {p : ℕ} (A : DMat n n R) (B : DMat p p R) : DMat (n * p) (n * p)
   DMat.ofMatrix (concat1of3 (concat1of4 (tensordot0 A B)))
 
 /-- `Representation.tensor_product(rep)`: `ValueError` unless the key *sets* agree; a fresh
-`Representation()`; `product_rep[gen] = …` (inverse by `utils.invert`) for `gen` in
+`Representation(parse_simple=self.parse_simple)` (repaired); `product_rep[gen] = …` (inverse by `utils.invert`) for `gen` in
 `self.asym_gens()` -/
 def tensorProduct {p : ℕ} (invert : DMat (n * p) (n * p) R → Option (DMat (n * p) (n * p) R))
     (ρ : Rep n R) (σ : Rep p R) : M? (Rep (n * p) R) :=
@@ -181,7 +182,7 @@ def tensorProduct {p : ℕ} (invert : DMat (n * p) (n * p) R → Option (DMat (n
       let a ← ρ.wordValueS g   -- `self[gen]` = `element(gen)`
       let b ← σ.wordValueS g
       τ.setGenerator invert g (tensorMat a b) true)
-    { gens := [] }
+    { gens := [], parseSimple := ρ.parseSimple }
 
 /-- `sym_index(i, j, n)`: `int((n - i) * (n - i - 1) / 2 + (j - i))` after sorting `i ≤ j`.
 The product of two consecutive integers is even, so the float division is exact and `ℕ`
@@ -224,7 +225,7 @@ def symmetricSquare (half : R)
   ρ.asymGens.foldlM (fun (σ : Rep (symDim n) R) g => do
       let t ← τ.wordValueS g
       σ.setGenerator invertS g (((symProjection n).mul t).mul (symInclusion half n)) true)
-    { gens := [] }
+    { gens := [], parseSimple := ρ.parseSimple }
 
 /-! ### Fox calculus -/
 
@@ -319,6 +320,54 @@ def invertF {K : Type} [Field K] [DecidableEq K] [Inhabited K] (A : DMat n n K) 
     Option (DMat n n K) :=
   let d := A.toMatrix.det
   if d = 0 then none else some (DMat.ofMatrix (d⁻¹ • A.toMatrix.adjugate))
+
+/-- Gauss–Jordan elimination on the augmented array `[A | 1]` (no theorem is proved about
+it: its result is only used after the run-time check in `invertG`) -/
+def gaussJordan {K : Type} [Field K] [DecidableEq K] (n : ℕ) (a : Array (Array K)) :
+    Option (Array (Array K)) := Id.run do
+  let mut m : Array (Array K) := (Array.range n).map fun i =>
+    (Array.range (2 * n)).map fun j =>
+      if j < n then (a.getD i #[]).getD j 0 else if j = n + i then 1 else 0
+  for c in [0:n] do
+    let mut p : Option Nat := none
+    for r in [c:n] do
+      if p.isNone ∧ (m.getD r #[]).getD c 0 ≠ 0 then p := some r
+    match p with
+    | none => return none
+    | some r =>
+      let rowR := m.getD r #[]
+      let rowC := m.getD c #[]
+      m := (m.setIfInBounds r rowC).setIfInBounds c rowR
+      let d := rowR.getD c 0
+      let piv := rowR.map (· / d)
+      m := m.setIfInBounds c piv
+      for r' in [0:n] do
+        if r' ≠ c then
+          let row := m.getD r' #[]
+          let f := row.getD c 0
+          if f ≠ 0 then
+            m := m.setIfInBounds r' ((Array.range (2 * n)).map fun j => row.getD j 0 - f * piv.getD j 0)
+  return some (m.map fun row => row.extract n (2 * n))
+
+/-- the driver's `utils.invert` for larger matrices: a Gauss–Jordan candidate, accepted only
+if it *is* a right inverse (checked by an exact matrix product) -/
+def invertG {K : Type} [Field K] [DecidableEq K] [Inhabited K] (A : DMat n n K) :
+    Option (DMat n n K) :=
+  match gaussJordan n A.a with
+  | none => none
+  | some x =>
+    let X : DMat n n K := ⟨x⟩
+    if A.toMatrix * X.toMatrix = 1 then some X else none
+
+/-- exact inverse over ℤ via ℚ (an inverse with a non-integer entry is no inverse over ℤ) -/
+def invertZG [Inhabited ℚ] (A : DMat n n ℤ) : Option (DMat n n ℤ) :=
+  match gaussJordan (K := ℚ) n (A.a.map (·.map (fun z : ℤ => (z : ℚ)))) with
+  | none => none
+  | some x =>
+    if x.all (·.all (·.den = 1)) then
+      let X : DMat n n ℤ := ⟨x.map (·.map (·.num))⟩
+      if A.toMatrix * X.toMatrix = 1 then some X else none
+    else none
 
 /-- exact inverse over ℤ (unimodular matrices only; anything else has no integer inverse) -/
 def invertZ (A : DMat n n ℤ) : Option (DMat n n ℤ) :=
